@@ -305,11 +305,17 @@ impl<S: LexemeSink> StateMachineActions for Lexer<S> {
         if let Some(AttributeOutline {
             ref mut name,
             ref mut raw_range,
-            ..
+            ref mut value,
         }) = self.current_attr
         {
             *name = get_token_part_range!(self);
             *raw_range = *name;
+            // NOTE: an attribute without a value has an empty value located right after its name
+            // (not at offset 0 of the current input, which is unrelated to the attribute).
+            *value = Range {
+                start: name.end,
+                end: name.end,
+            };
         }
     }
 
